@@ -123,3 +123,39 @@ static void st_case(Ctx& c, uint64_t idx) {
 static Monitor monS = {"statics", "C20: API tour with the library's writable segments write-protected (so build)", "C20", st_ncases, st_case, nullptr};
 VF_REGISTER(monS);
 }
+
+// Monitor "ip4": C02 -- the public uriParseIpFourAddressA/W against the IPv4address automaton and value decoder:
+// all strings over "0-9 ." plus one foreign character up to a length, and random longer ones; return code, the four
+// octets, nothing written beyond octetOutput[3], input range respected (exact heap block / fence).
+namespace {
+static const char IP4_ALPHA[] = "0123456789.x";
+static uint64_t ip4_nenum(Ctx& c) { return genum_count(12, (size_t)c.param_int("enum_len", c.tier == "thorough" ? 8 : 7)); }
+static uint64_t ip4_ncases(Ctx& c) { return ip4_nenum(c) + (uint64_t)c.param_int("random", c.tier == "thorough" ? 20000000 : 2000000); }
+template <class X> void ip4_run(Ctx& c, const Str& s) {
+    typedef typename X::Char Char;
+    typename X::S w = widen<X>(s);
+    static GuardedInput gin; gin.set(w.data(), w.size() * sizeof(Char), (int)(c.case_index & 1));
+    const Char* first = (const Char*)gin.ptr;
+    unsigned char out[12]; memset(out, 0xA7, sizeof out);
+    int rc; { LibScope ls; rc = X::ParseIpFourAddress(out + 4, first, first + w.size()); }
+    c.evaluations++;
+    unsigned char want[4]; bool valid = decode_ip4(s, want);
+    Str what = fmt("uriParseIpFourAddress%s(\"%s\")", X::tag(), esc(s).c_str());
+    for (int i = 0; i < 4; i++) if (out[i] != 0xA7 || out[8 + i] != 0xA7) { c.violation("C02", fmt("ip4/%s/write-outside-octet-output", X::tag()), what); break; }
+    if (!gin.unchanged()) c.violation("C02", fmt("ip4/%s/input-modified", X::tag()), what);
+    if (valid != (rc == URI_SUCCESS)) { c.violation("C02", fmt("ip4/%s/%s", X::tag(), valid ? "rejects-valid-address" : "accepts-invalid-address"), what + fmt(" rc=%d", rc)); return; }
+    if (!valid && rc != URI_ERROR_SYNTAX) c.violation("C02", fmt("ip4/%s/wrong-error-code", X::tag()), what + fmt(" rc=%d", rc));
+    if (valid && memcmp(out + 4, want, 4) != 0) c.violation("C02", fmt("ip4/%s/octets-wrong", X::tag()), what + fmt(" got %u.%u.%u.%u", out[4], out[5], out[6], out[7]));
+    c.count(valid ? "ip4_valid" : "ip4_invalid");
+}
+static void ip4_case(Ctx& c, uint64_t idx) {
+    Str s; uint64_t ne = ip4_nenum(c);
+    if (idx < ne) s = genum_case(idx, Str(IP4_ALPHA, 12), 16);
+    else { Rng& r = c.rng; int k = r.chance(2, 3) ? 4 : r.range(1, 5); for (int i = 0; i < k; i++) { if (i) s += '.'; int style = r.below(6); if (style == 0) s += std::to_string(r.below(256)); else if (style == 1) s += std::to_string(250 + r.below(60)); else if (style == 2) s += "0" + std::to_string(r.below(30)); else if (style == 3) s += std::to_string(r.below(10)); else if (style == 4) s += std::to_string(r.below(1000)); else s += r.coin() ? "" : "1a"; } if (r.chance(1, 6)) s = mutate(r, s, 1); for (auto& ch : s) if (!ch) ch = '0'; }
+    c.distinct(hash_str(s)); c.note("ip4 \"" + esc(s) + "\"");
+    ip4_run<ApiA>(c, s); ip4_run<ApiW>(c, s);
+    if (idx % 200000 == 7) c.sample("ip4", esc(s));
+}
+static Monitor monI = {"ip4", "C02: uriParseIpFourAddress vs IPv4address automaton and decoder", "C02", ip4_ncases, ip4_case, nullptr};
+VF_REGISTER(monI);
+}
